@@ -6,7 +6,7 @@
     Quantifiers: every program, every snapshot / decorator list (no length bound), every inner
     handler function, every delivery. *)
 From WM Require Import Base.Prelude Message.Model Handler.RouterHandle Router.Wiring Router.WiringSpec Router.WiringProofs
-  Router.Life Router.LifeProofs Corr.C08 Corr.C09 Router.LifeAccept Router.WiringGen.
+  Router.Life Router.LifeProofs Corr.C08 Corr.C09 Router.LifeAccept Router.WiringGen Router.WiringGenFail.
 
 (** What a handler freezes (programs without Stop / failing constructors): if handler [n] was added in [pre] and not started in [pre], then after
     [pre ++ Run/RunHandlers :: post] — whatever [post] registers — its snapshot is exactly the
@@ -114,6 +114,18 @@ Proof. exact decorators_all. Qed.
 Theorem C09_wiring_is_generation_scan : forall ops n, splain ops = true ->
   find_handler n (exec rinit ops) = gspec n ops.
 Proof. exact wiring_is_generation_scan. Qed.
+(** Programs WITH failing decorator constructors (and Stop / re-added names; asynchronous starts excluded).
+    Whether a Run/RunHandlers finds a failing constructor depends on the budgets all handlers' attempts have
+    used up; per handler that is an oracle [ok]: [ok k] = the start at position k of the program found no failing
+    constructor.  Given a right oracle the wiring of a name is ONE left-to-right scan of the program,
+    independent of every other handler: the current generation's AddHandler, started by the first start after it
+    for which the oracle says yes, holding exactly the registrations and decorator lists of the prefix before
+    that start.  The machine's own verdicts are such an oracle. *)
+Theorem C09_started_holds_prefix_with_failures : forall ok ops n, sync_prog ops = true -> oracle_for ok ops ->
+  find_handler n (exec rinit ops) = gspec_o ok n ops.
+Proof. exact started_holds_prefix_with_failures. Qed.
+Theorem C09_machine_oracle_is_right : forall ops, oracle_for (machine_oracle ops) ops.
+Proof. exact machine_oracle_for. Qed.
 Theorem C09_names_unique : forall ops, NoDup (names (exec rinit ops)).
 Proof. exact names_nodup_all. Qed.
 
@@ -179,6 +191,8 @@ Print Assumptions C09_registrations_never_removed.
 Print Assumptions C09_started_frozen.
 Print Assumptions C09_start_outcome.
 Print Assumptions C09_names_unique.
+Print Assumptions C09_started_holds_prefix_with_failures.
+Print Assumptions C09_machine_oracle_is_right.
 Print Assumptions C09_wiring_is_generation_scan.
 Print Assumptions C09_started_holds_prefix_partial.
 Print Assumptions C09_decorator_lists_all.
